@@ -268,6 +268,14 @@ func runC10(w *World) *Result {
 		for i := range names {
 			n := &names[i]
 			k := n.space + ":" + n.pattern
+			// a name used inside helper routines is judged per routine: that _sah protects its _i says
+			// nothing about _sch
+			if strings.HasPrefix(n.where, "helper:") && n.space == "var" {
+				k += "@" + n.where
+				if role == "bash" && helperGlobalWrite[n.pattern+"@"+n.where] {
+					k += ":global-write" // not even a local: every call of the routine overwrites the user's variable
+				}
+			}
 			if seen[k] == nil {
 				seen[k] = n
 				order = append(order, k)
@@ -365,6 +373,10 @@ func runC10(w *World) *Result {
 // locals are dynamically scoped: only such a dereference can see the helper's local
 // instead of the user's variable of the same name; the user's variable itself is never
 // written.
+// helperGlobalWrite: name@helper:routine -> the routine assigns the name without declaring it
+// local first (filled by c10HelperLocals): the assignment writes the script's global of that name.
+var helperGlobalWrite = map[string]bool{}
+
 func c10HelperLocals(b *Backend) map[string]string {
 	reAssign := regexp.MustCompile(`(?:^|[ ;(])(local )?([A-Za-z_][A-Za-z0-9_]*)(?:\+\+|=)`)
 	reLocalList := regexp.MustCompile(`(?:^|[ ;(])local ((?:[A-Za-z_][A-Za-z0-9_]*(?:=\S*)? ?)+)`)
@@ -461,6 +473,23 @@ func c10HelperLocals(b *Backend) map[string]string {
 	}
 	out := map[string]string{}
 	for name, os := range occs {
+		// per routine: is the first assignment a local declaration?
+		f0 := map[string]int{}
+		l0 := map[string]bool{}
+		for _, o := range os {
+			if o.helper == "" {
+				continue
+			}
+			if f, seen := f0[o.helper]; !seen || o.line < f || (o.line == f && o.local) {
+				f0[o.helper] = o.line
+				l0[o.helper] = o.local
+			}
+		}
+		for h, isLocal := range l0 {
+			if !isLocal {
+				helperGlobalWrite[name+"@helper:"+h] = true
+			}
+		}
 		first := map[string]int{}
 		firstLocal := map[string]bool{}
 		ok := len(os) > 0
